@@ -53,8 +53,33 @@ def main(tier):
             x = recs[i - 1]
             brief = {'shapes': [[v // 1024 if k else v for k, v in enumerate(q)] for q in x['shapes']],
                      'pins': [{k: (p[k] if k != 'p' else [v / 1024 for v in p[k]]) for k in ('s', 'c', 'xq', 'yq', 'inside', 'dirs', 'excl', 'p')} for p in x['pins']],
-                     'conns': [{'src': c['src'], 'dst': c['dst'], 'raw': [[v / 1024 for v in p] for p in c['raw']]} for c in x['conns']]}
-            vd.violation('pins:' + t, '%s after op %s of history %s (mode=%d buf=%d): %s' % (t, op, hists[hi], x['mode'], x['buf'], json.dumps(brief)[:900]),
+                     'conns': [{'id': c.get('id'), 'src': c['src'], 'dst': c['dst'], 'raw': [[v / 1024 for v in p] for p in c['raw']], 'cps': [[v / 1024 for v in p] for p in c.get('cps', [])]} for c in x['conns']]}
+            key = 'pins:' + t
+            # fingerprints of the known classes (the verdict is the specification's; this only names the input class)
+            ever_cp = {}
+            for o in hists[hi]:
+                if o[0] == 5:
+                    ever_cp.setdefault(o[1], set()).add((o[3] * 1024, o[4] * 1024))
+            pinpos = {tuple(q['p']) for q in x['pins']}
+            def on_old_checkpoint(c):
+                return any(e['t'] == 1 and tuple(pt) not in pinpos and tuple(pt) in ever_cp.get(c['id'], set())
+                           for e, pt in ((c['src'], c['raw'][0]), (c['dst'], c['raw'][-1])) if len(c['raw']) >= 2)
+            if t == 'pin-end-not-on-a-free-pin-of-its-class':
+                if any(c['src']['t'] == 1 and c['dst']['t'] == 1 and c['src']['s'] == c['dst']['s'] for c in x['conns']):
+                    key += ':a-connector-joins-two-pins-of-one-shape'
+                elif any(on_old_checkpoint(c) for c in x['conns']):
+                    key += ':route-ends-on-a-checkpoint'
+                elif all(c['id'] in ever_cp for c in x['conns'] if (c['src']['t'] == 1 and tuple(c['raw'][0]) not in pinpos) or (c['dst']['t'] == 1 and tuple(c['raw'][-1]) not in pinpos)):
+                    key += ':connector-with-checkpoints'
+            if t == 'checkpoints-not-visited-in-order' and x['mode'] == 0:
+                def inside_pin(e):
+                    if e['t'] != 1:
+                        return False
+                    sh = [q for q in x['shapes'] if q[0] == e['s']]
+                    return bool(sh) and sh[0][1] < e['p'][0] < sh[0][3] and sh[0][2] < e['p'][1] < sh[0][4]
+                if any(c.get('cps') and (inside_pin(c['src']) or inside_pin(c['dst'])) for c in x['conns']):
+                    key += ':polyline-connector-attached-to-a-pin-inside-its-shape'
+            vd.violation(key, '%s after op %s of history %s (mode=%d buf=%d): %s' % (t, op, hists[hi], x['mode'], x['buf'], json.dumps(brief)[:900]),
                          {'ops': hists[hi], 'mode': x['mode'], 'opts': x['opts'], 'after_op': op, 'snapshot': brief})
     ev.cov['evaluations'] = len(recs)
     ev.cov['distinct_nontrivial'] = nontriv
